@@ -185,7 +185,19 @@ func runProperty[C any](t *testing.T, prop string, gen func(*rapid.T) C, check f
 
 // anomaly classifies worker-level anomalies and names the owning property ("" = none).
 func anomaly(ans *vrun.Answer) (owner, detail string) {
+	defer func() {
+		if dir := os.Getenv("VERIF_FOREIGN_DIR"); dir != "" && owner != "" {
+			_ = os.MkdirAll(dir, 0o755)
+			if f, err := os.OpenFile(fmt.Sprintf("%s/anomalies-%d.log", dir, os.Getpid()), os.O_APPEND|os.O_CREATE|os.O_WRONLY, 0o644); err == nil {
+				fmt.Fprintf(f, "=== %s\n%s\n", owner, short(detail, 6000))
+				f.Close()
+			}
+		}
+	}()
 	switch {
+	case ans.ProcessDeath != "" && strings.Contains(ans.ProcessDeath, "send on closed channel") && strings.Contains(ans.ProcessDeath, "atp.(*atpServerSession).runStep"):
+		// panic of the SDK's plugin-side server (it lives in the worker only in this harness)
+		return "HARNESS-plugin-side-panic", ans.ProcessDeath
 	case ans.ProcessDeath != "":
 		return "C07", "process death: " + ans.ProcessDeath
 	case ans.Panic != "":
